@@ -3,7 +3,7 @@ CONSTANTS
     MaxRot = 2
     MaxCompact = 1
     Variant = "repo"
-    MaxCrash = 1
+    MaxCrash = 2
     RecCap = 1
     RecoverVariant = "repo"
 INIT Init
